@@ -294,6 +294,9 @@ def run(ctx):
         sp = G.gen_spec(rng, i)
         sp["dm"] = rng.random() < 0.3
         sp["colour"] = rng.random() < 0.3
+        if rng.random() < 0.08:          # malformed stream: one metadata rule broken
+            sp["malformed"] = G.make_invalid(rng, sp)
+            sp["mode"] = "malformed"
         specs.append(sp)
     for k, sp in enumerate(specs):
         sp["id"] = k
@@ -322,6 +325,9 @@ def run(ctx):
                    "stub only (%s)" % (res["call_err"] or "")[:70] if res.get("stub") else
                    "neither (%s | %s)" % ((res["call_err"] or "")[:60], (res["stub_err"] or "")[:50]))
         ctx.hist("outcome", outcome)
+        if sp.get("malformed"):
+            ctx.hist("malformed", "%s: %s" % (sp["malformed"], "accepted" if (res.get("call") or res.get("stub"))
+                                              else "rejected by both generators"))
         ctx.hist("safe", "safe" if not S.unsafe_reasons(sp, True, variant) else
                  ",".join(S.unsafe_reasons(sp, True, variant)))
         if res.get("coloured"):
@@ -357,6 +363,10 @@ def run(ctx):
             ctx.finding(K_NFACES, "meta_mesh adjacent_face + reference-element properties without a horizontal one: "
                         "the PSy layer assigns and passes nfaces_re_h but never declares it",
                         replay_info(ctx, sp, res))
+        elif sp["operates_on"] == "dof" and not res.get("call"):
+            # "Support for DoF kernels has not yet been implemented" (user guide): PSy-layer generation
+            # fails in various places (loop bounds, halo exchanges); the stub generator refuses them too
+            ctx.hist("refused", "dof kernel: " + (res.get("call_err") or "")[:60])
         elif res.get("call_err") and not res["call_err"].startswith("refused/") and \
                 (res.get("stub") or (res.get("stub_err") or "").startswith("stub-refused/")):
             ctx.violation(replay_info(ctx, sp, res, {
